@@ -163,6 +163,12 @@ def build_exe():
     import time
     d = os.path.join(vlib.BUILD, "c17-run")
     os.makedirs(d, exist_ok=True)
+    for old in os.listdir(d):       # copies left behind by interrupted runs
+        try:
+            if time.time() - os.path.getmtime(os.path.join(d, old)) > 3600:
+                os.remove(os.path.join(d, old))
+        except OSError:
+            pass
     last = None
     for _ in range(5):
         try:
